@@ -1150,6 +1150,59 @@ func (x *Exec) evalBuiltinSpec(ce *CEnv, name string, args []Expr) (*Val, bool) 
 		return &Val{Typ: intT, T: x.sCap(x.asTerm(v))}, true
 	case "forall", "exists":
 		return x.evalQuant(ce, name, args), true
+	case "sum":
+		return x.evalSum(ce, args), true
+	case "loopentry":
+		// loopentry(v): the value header phi v of the enclosing loop had when the loop was entered
+		id, ok := args[0].(*EIdent)
+		if len(args) != 1 || !ok {
+			cfail("loopentry(v) takes the name of a loop-carried variable")
+		}
+		if ce.loop == nil {
+			// in a block the loop exits through (e.g. a return inside the loop body):
+			// the variable's loop is found by name; meaningful only on paths that entered it
+			var hit *Val
+			n := 0
+			if ce.fr != nil && ce.fr.loops != nil {
+				for _, l := range ce.fr.loops.loops {
+					for _, in := range l.header.Instrs {
+						phi, ok := in.(*ssa.Phi)
+						if !ok {
+							break
+						}
+						if phiName(phi) == id.Name {
+							if v := x.loopEntry[l][phi]; v != nil {
+								hit = v
+								n++
+							}
+						}
+					}
+				}
+			}
+			if n == 1 {
+				return hit, true
+			}
+			if n == 0 {
+				return x.evalIdent(ce, id.Name), true
+			}
+			cfail("loopentry(%s) outside a loop: %d candidate loops", id.Name, n)
+		}
+		for l := ce.loop; l != nil; l = l.parent {
+			for _, in := range l.header.Instrs {
+				phi, ok := in.(*ssa.Phi)
+				if !ok {
+					break
+				}
+				if phiName(phi) == id.Name {
+					if v := x.loopEntry[l][phi]; v != nil {
+						return v, true
+					}
+					cfail("loopentry(%s): the loop has no invariant (unrolled loops have no entry snapshot)", id.Name)
+				}
+			}
+		}
+		// not loop-carried: the loop does not change it, its entry value is its value
+		return x.evalIdent(ce, id.Name), true
 	case "abs":
 		v := x.eval(ce, args[0])
 		if isFloat(v.Typ) {
@@ -1581,6 +1634,77 @@ func (x *Exec) evalQuant(ce *CEnv, kind string, args []Expr) *Val {
 	}
 	cfail("%s needs (i, lo, hi, body), (T(v), body) or (v, \"T\", body)", kind)
 	return nil
+}
+
+// evalSum: sum(k, lo, hi, body) is the sum of body over lo <= k < hi (0 when
+// hi <= lo). It is an uninterpreted function of hi, one per (lo, body) pair,
+// with its recursive definition as a quantified axiom:
+//
+//	S(h) = 0 for h <= lo;  S(h) = S(h-1) + body[k := h-1] for h > lo.
+//
+// body is evaluated in the state of the enclosing expression; the same body in
+// the same state gives the same function, a different heap a different one.
+func (x *Exec) evalSum(ce *CEnv, args []Expr) *Val {
+	if len(args) != 4 {
+		cfail("sum(k, lo, hi, body) expected")
+	}
+	id, ok := args[0].(*EIdent)
+	if !ok {
+		cfail("sum: first argument must be an identifier")
+	}
+	lo := x.coerce(x.eval(ce, args[1]), intT)
+	hi := x.coerce(x.eval(ce, args[2]), intT)
+	bv := x.b.BoundVar("k!sum", "Int")
+	body := x.eval(ce.withBound(id.Name, &Val{Typ: intT, T: bv}), args[3])
+	if body.T == nil {
+		cfail("sum: body must be a number")
+	}
+	isF := isFloat(body.Typ) || body.Typ == untypedFloat
+	typ := body.Typ
+	if body.Typ == untypedFloat {
+		typ = float64T
+	} else if body.Typ == untypedInt {
+		typ = intT
+	}
+	probe := x.b.Subst(body.T, map[string]*smt.Term{"k!sum": x.b.Int(0)})
+	if probe.Bound || lo.T.Bound {
+		cfail("sum: body and lower bound must not depend on an enclosing quantifier's variable (nor contain a nested sum)")
+	}
+	key := fmt.Sprintf("%d:%d", lo.T.ID, body.T.ID)
+	if x.sumIDs == nil {
+		x.sumIDs = map[string]int{}
+	}
+	n, ok := x.sumIDs[key]
+	if !ok {
+		n = len(x.sumIDs) + 1
+		x.sumIDs[key] = n
+	}
+	name := fmt.Sprintf("sum_%d", n)
+	sort := body.T.Sort
+	x.declareUF(name, []string{"Int"}, sort)
+	if !x.ufDecl["sumax:"+name] {
+		x.ufDecl["sumax:"+name] = true
+		h := x.b.BoundVar("h!sum", "Int")
+		sh := x.b.App(name, sort, h)
+		hm1 := x.b.Sub(h, x.b.Int(1))
+		shm1 := x.b.App(name, sort, hm1)
+		term := x.b.Subst(body.T, map[string]*smt.Term{"k!sum": hm1})
+		var zero, step *smt.Term
+		if isF {
+			zero = x.constVal(float64T, constant.MakeInt64(0)).T
+			step = x.fArith("+", shm1, term)
+		} else {
+			zero = x.b.Int(0)
+			step = x.b.Add(shm1, term)
+		}
+		ax := x.b.Quant("forall", []*smt.Term{h}, x.b.Ite(x.b.Cmp("<=", h, lo.T), x.b.Eq(sh, zero), x.b.Eq(sh, step)), sh)
+		x.axiom(ax)
+		if x.keepHyp == nil {
+			x.keepHyp = map[int]bool{}
+		}
+		x.keepHyp[ax.ID] = true
+	}
+	return &Val{Typ: typ, T: x.b.App(name, sort, hi.T)}
 }
 
 func exprString(e Expr) string {
